@@ -254,6 +254,25 @@ func c06Verify(res *engine.Result, pre string, pmt psi.PMT, w *c06Want, deep boo
 			res.Failf(pre+"CurrentNextIndicator", "CurrentNextIndicator()=%v, section has %v", pmt.CurrentNextIndicator(), sec.CurrentNext)
 		}
 		c06VerifyStreams(res, pre, pmt.ElementaryStreams(), w, deep)
+		// queries in between do not disturb the list: ask for every listed PID (and an absent one), then
+		// read the PID list and the streams again
+		for _, p := range c06PIDList(sec) {
+			if !pmt.PIDExists(p) {
+				res.Failf(pre+"PIDExists", "PIDExists(%#x) false for a listed stream", p)
+			}
+		}
+		_ = pmt.PIDExists(0x1ABC)
+		if want := c06PIDList(sec); !c06SameInts(pmt.Pids(), want) {
+			res.Failf(pre+"Pids-after-queries", "after PIDExists queries Pids()=%v, section has %v", pmt.Pids(), want)
+		}
+		if es := pmt.ElementaryStreams(); len(es) == len(sec.Streams) {
+			for i := range es {
+				if es[i].ElementaryPid() != sec.Streams[i].PID {
+					res.Failf(pre+"ElementaryStreams-after-queries", "after PIDExists queries stream %d has PID %#x, section has %#x", i, es[i].ElementaryPid(), sec.Streams[i].PID)
+					break
+				}
+			}
+		}
 	})
 }
 
